@@ -407,3 +407,114 @@ Print Assumptions C05_write_read_teletext_ignore.
 Print Assumptions C05_rewrite_keeps_timecodes_open.
 Print Assumptions C05_rewrite_keeps_timecodes_teletext.
 Print Assumptions C05_example_document_teletext.
+
+(* ---- OUTSIDE the proviso "text lies in the Latin repertoire and fits" (audit N9b): observations, computed on the model and
+   compared with the library byte for byte on the same pinned cases (harness/stl_outside.go: stl.encode_text.outside,
+   stl.write.outside, stl.read.outside).  Not fidelity statements: they record what WriteToSTL does with input the property
+   excludes, all of it WITHOUT an error:
+   - a code point outside the repertoire is written as its low byte (U+0416 -> 0x16, U+1F600 -> 0x00, U+20AC -> 0xAC which reads
+     back as the left arrow, U+4E2D -> 0x2D which reads back as "-");
+   - a cue whose encoded text is longer than 112 bytes is cut at 112 bytes;
+   - the file written for U+0416 under display standard "0" is rejected by the library's own reader (a byte below 0x20 in an
+     open-subtitling text field: C05_read_rendered_needs_no_control); under the default standard it is read and the character
+     is gone.
+   C07 does not enforce "representable" either: a conversion into STL of text outside the repertoire goes through this. *)
+From Astisub Require Import Proofs.StlOutside.
+Example C05_outside_low_byte :
+  encode_text_stl out_zhe = [22]%N /\ encode_text_stl out_grin = [0]%N /\ encode_text_stl out_euro = [172]%N /\
+  encode_text_stl out_zhong = [45]%N /\ encode_text_stl ([97]%N ++ out_zhe ++ [98]%N) = [97; 22; 98]%N /\
+  text_faithful out_zhe = false /\ text_faithful out_grin = false.
+Proof. exact outside_low_byte. Qed.
+Example C05_outside_long_line_cut :
+  match write_stl out_now None [out_item (repeat 120%N 130)] with
+  | Ok f => length f = 1152%nat /\ skipn (1024 + 16) f = repeat 120%N 112 /\
+            match read_stl false f with
+            | Ok d => map (fun it => map (map ru_text) (ri_lines it)) (rd_items d) = [[[repeat 120%N 112]]]
+            | _ => False
+            end
+  | _ => False
+  end.
+Proof. exact outside_long_line_cut. Qed.
+Example C05_outside_unreadable_open :
+  match write_stl out_now (out_md [48]%N) [out_item ([97]%N ++ out_zhe ++ [98]%N)] with
+  | Ok f => nth (1024 + 17) f 0%N = 22%N /\ read_stl false f = Err EParse
+  | _ => False
+  end.
+Proof. exact outside_unreadable_open. Qed.
+Example C05_outside_lost_teletext :
+  match write_stl out_now None [out_item ([97]%N ++ out_zhe ++ [98]%N)] with
+  | Ok f => nth (1024 + 17) f 0%N = 22%N /\
+            match read_stl false f with
+            | Ok d => map (fun it => map (map ru_text) (ri_lines it)) (rd_items d) = [[[[97; 98]%N]]]
+            | _ => False
+            end
+  | _ => False
+  end.
+Proof. exact outside_lost_teletext. Qed.
+Print Assumptions C05_outside_low_byte.
+Print Assumptions C05_outside_long_line_cut.
+Print Assumptions C05_outside_unreadable_open.
+Print Assumptions C05_outside_lost_teletext.
+
+(* ---- THE WRITER'S OWN FILES ARE RENDERINGS (second audit, items (i)7 / (i)8; Proofs/StlWriteRendering.v) ----
+   Until now a teletext row of a rendering always had a start box, which WriteToSTL never writes, and only the writer's GSI
+   block was shown to be a rendering (C05_read_rendered_covers_writer): C05_read_rendered did not cover the library's own
+   output.  Two changes:
+   (1) the rendering relation: a teletext row is now a [brow] = a structured row with its start box WRITTEN or OMITTED
+       (Proofs/StlReadTtx.v); omitted only when nothing stands in front of it and no other cell is a start box (the reader
+       puts a start box in front of a row that has none: stl.go 290) - both conditions are in the decidable check and
+       shown necessary (z_needs_no_pre); the meaning of the row is the same [denote_trow].  C05_read_rendered keeps its
+       statement over the wider relation; C05_read_rendered_example_no_start_box is a worked file with box-less rows
+       (replayed on the library: stl.needs.worked_instance_teletext_no_start_box; the generator omits the start box in half
+       of the rows that allow it: stl.free.start_box_omitted).
+   (2) C05_write_is_rendering_open / _teletext: for every representable document the bytes WriteToSTL produces ARE
+       [render_stl writer_forms g (wrn_blocks open g items)], g the GSI value the writer builds, [wrn_blocks] built from the
+       writer's INPUT alone (one subtitle block per item, numbered from 1, subtitle group 0, extension block number 255,
+       the timecode bytes the writer computes, position, justification, and the text field as structured rows: style codes
+       around the encoded characters, runs joined by a blank, 0x8F padding; under the teletext standards box-less rows), and
+       that rendering passes [rendering_okb].  Hence C05_read_rendered applies to the library's own output, for both values
+       of the option (C05_write_read_rendered_open, _teletext), and the meaning it gives is the read-back of C05_write_read_open /
+       _teletext (C05_write_denotes_open, _teletext). *)
+From Astisub Require Import Proofs.StlWriteRendering.
+Theorem C05_write_is_rendering_open : forall now md items, doc_repr_open now md items -> let g := new_gsi now md items in
+  write_stl now md items = Ok (render_stl writer_forms g (wrn_blocks true g items)) /\
+  rendering_okb writer_forms g (wrn_blocks true g items) = true.
+Proof. exact write_is_rendering_open. Qed.
+Theorem C05_write_is_rendering_teletext : forall now md items, doc_repr_ttx now md items -> let g := new_gsi now md items in
+  write_stl now md items = Ok (render_stl writer_forms g (wrn_blocks false g items)) /\
+  rendering_okb writer_forms g (wrn_blocks false g items) = true.
+Proof. exact write_is_rendering_ttx. Qed.
+Theorem C05_write_read_rendered_open : forall ign now md items, doc_repr_open now md items -> let g := new_gsi now md items in
+  exists out, write_stl now md items = Ok out /\ read_stl ign out = Ok (denote_stl ign g (wrn_blocks true g items)).
+Proof. exact write_read_rendered_open. Qed.
+Theorem C05_write_read_rendered_teletext : forall ign now md items, doc_repr_ttx now md items -> let g := new_gsi now md items in
+  exists out, write_stl now md items = Ok out /\ read_stl ign out = Ok (denote_stl ign g (wrn_blocks false g items)).
+Proof. exact write_read_rendered_ttx. Qed.
+Theorem C05_write_denotes_open : forall now md items, doc_repr_open now md items -> let g := new_gsi now md items in
+  denote_stl false g (wrn_blocks true g items) = read_back g expected_line items.
+Proof. exact write_denotes_open. Qed.
+Theorem C05_write_denotes_teletext : forall now md items, doc_repr_ttx now md items -> let g := new_gsi now md items in
+  denote_stl false g (wrn_blocks false g items) = read_back g expected_ttx_line items.
+Proof. exact write_denotes_ttx. Qed.
+(* a teletext row of a rendering with its start box omitted reads like the row with it *)
+Theorem C05_read_rendered_row_without_start_box : forall b, brow_box_okb b = true ->
+  (if nmem 11 (brow_cells b) then brow_cells b else 11%N :: brow_cells b) = srow_cells (br_row b).
+Proof. exact brow_boxed. Qed.
+Example C05_read_rendered_example_no_start_box : forall ign,
+  rendering_okb writer_forms z_g z_blocks = true /\ read_stl ign z_bytes = Ok (denote_stl ign z_g z_blocks).
+Proof. intros ign. split; [exact z_ok | rewrite <- z_bytes_are_rendering; apply z_read]. Qed.
+(* the example documents of C05_example_document / C05_example_document_teletext: their written bytes are the rendering *)
+Example C05_write_is_rendering_example :
+  let g := new_gsi ex_now (Some ex_md) ex_items in
+  rendering_okb writer_forms g (wrn_blocks true g ex_items) = true /\
+  write_stl ex_now (Some ex_md) ex_items = Ok (render_stl writer_forms g (wrn_blocks true g ex_items)).
+Proof. exact wrn_ex_doc_open. Qed.
+Print Assumptions C05_write_is_rendering_open.
+Print Assumptions C05_write_is_rendering_teletext.
+Print Assumptions C05_write_read_rendered_open.
+Print Assumptions C05_write_read_rendered_teletext.
+Print Assumptions C05_write_denotes_open.
+Print Assumptions C05_write_denotes_teletext.
+Print Assumptions C05_read_rendered_row_without_start_box.
+Print Assumptions C05_read_rendered_example_no_start_box.
+Print Assumptions C05_write_is_rendering_example.
